@@ -15,7 +15,10 @@
   is proven for ALL inputs: the fuel bounds of every loop that is not bounded by a counter, and the safety of
   read_image_info for the three formats on both devices.
 
-  Only property theorems live here (C11_*); helper lemmas are in Lemmas/C11.lean.
+  Non-vacuity (`C11_wf_encode_*`, end of the file): the byte strings GIL's own writers produce (Model/Codec.lean) are read
+  back `ok` by these models for images of EVERY width and height the shared 64 KiB allocation rule admits, on every device.
+
+  Only property theorems live here (C11_*); helper lemmas are in Lemmas/C11.lean, C11Safe.lean, C11Bmp.lean, C11Wf.lean.
 -/
 import GilVerif.Lemmas.C11Wf
 
@@ -434,11 +437,44 @@ theorem C11_wf_encode_bmp_rgba8 (img : Codec.Img Codec.Rgba8) (hwf : img.WF) (hw
     isOk (decode .bmp dev (Codec.encodeBmp Codec.bgra8 img) (readImageOf .rgba8)) = true :=
   C11_wf_encode_bmp Codec.bgra8 (fun _ => rfl) .rgba8 (Or.inr ⟨rfl, rfl⟩) img hwf hw hh hsz dev
 
+/-- PNM binary (P5 from gray8, P6 from rgb8: the two types the writer emits for 8-bit views), generic in the pixel layout.
+    `ch` = bytes per pixel. The second size condition is the reader's own row buffer: `row_buffer_helper(_scanline_length)`
+    allocates `_scanline_length` PIXELS where `_scanline_length` already counts bytes, i.e. 9 bytes per pixel of a P6 row. -/
+theorem C11_wf_encode_pnm {α} (f : Codec.PixFmt α) (henc : ∀ p, (f.enc p).length = f.size) (t : Nat) (dst : Dst)
+    (hty : (t = 5 ∧ f.size = 1 ∧ dst = .gray8) ∨ (t = 6 ∧ f.size = 3 ∧ dst = .rgb8))
+    (img : Codec.Img α) (hwf : img.WF) (hw : 1 ≤ img.w) (hh : 1 ≤ img.h) (hsz : img.w * img.h * f.size ≤ 65536)
+    (hrow : img.w * f.size * f.size ≤ 65536) (dev : Dev) :
+    isOk (decode .pnm dev (Codec.encodePnm f t img) (readImageOf dst)) = true := by
+  apply isOk_decode_of_runs
+  exact runs_pnm_run_image (readImageOf dst) t img.w img.h f.size rfl hty rfl rfl rfl rfl hw hh hsz hrow rfl
+    (by rw [pnm_body_length f henc img hwf]) (live_init _ _)
+
+theorem C11_wf_encode_pnm_gray8 (img : Codec.Img UInt8) (hwf : img.WF) (hw : 1 ≤ img.w) (hh : 1 ≤ img.h)
+    (hsz : img.w * img.h ≤ 65536) (dev : Dev) :
+    isOk (decode .pnm dev (Codec.encodePnm Codec.gray8 5 img) (readImageOf .gray8)) = true :=
+  C11_wf_encode_pnm Codec.gray8 (fun _ => rfl) 5 .gray8 (Or.inl ⟨rfl, rfl, rfl⟩) img hwf hw hh
+    (by show img.w * img.h * 1 ≤ 65536; omega)
+    (by show img.w * 1 * 1 ≤ 65536
+        have : img.w ≤ img.w * img.h := Nat.le_mul_of_pos_right _ (by omega)
+        omega) dev
+
+theorem C11_wf_encode_pnm_rgb8 (img : Codec.Img Codec.Rgb8) (hwf : img.WF) (hw : 1 ≤ img.w) (hh : 1 ≤ img.h)
+    (hsz : img.w * img.h * 3 ≤ 65536) (hrow : img.w * 9 ≤ 65536) (dev : Dev) :
+    isOk (decode .pnm dev (Codec.encodePnm Codec.rgb8 6 img) (readImageOf .rgb8)) = true :=
+  C11_wf_encode_pnm Codec.rgb8 (fun _ => rfl) 6 .rgb8 (Or.inr ⟨rfl, rfl, rfl⟩) img hwf hw hh hsz
+    (by show img.w * 3 * 3 ≤ 65536; omega) dev
+
+/-- the hypotheses are satisfiable at every size: e.g. the all-black `w x h` image -/
+example (w h : Nat) (hw : 1 ≤ w) (hh : 1 ≤ h) (hsz : w * h * 3 ≤ 65536) (dev : Dev) :
+    isOk (decode .tga dev (Codec.encodeTga Codec.bgr8 ⟨w, h, List.replicate h (List.replicate w ⟨0, 0, 0⟩)⟩) (readImageOf .rgb8)) = true :=
+  C11_wf_encode_targa_rgb8 _ ⟨by simp, by intro r hr; rw [List.eq_of_mem_replicate hr]; simp⟩ hw hh hsz dev
+
 /-
-  -- OPEN (not proven): for ALL image sizes, the bytes GIL's writers produce decode `ok` in these models (C11_wf_encode).
-  --   Instances are checked by `decide` (C11_valid_*_ok and the witness files); the correspondence run reads files written
-  --   by the model-independent Python encoders and (for PNG/JPEG/TIFF) by GIL's own writers on every run.
-  -- NOT COVERED by the statements above: read_and_convert_image into destination types other than rgb8 / rgba8 (PNM: rgb8)
+  -- NOT COVERED by the non-vacuity theorems: entry points other than `read_image` with default settings (sub-rectangles, views,
+  --   the scanline reader), the mono PNM writer (P4), and files no GIL writer produces (palette / RLE / bit-field BMP, ASCII
+  --   PNM, RLE TARGA): for those only instances are checked by `decide` (C11_valid_*_ok and the witness files) and the
+  --   correspondence run reads such files written by the model-independent Python encoders on every run.
+  -- NOT COVERED by the safety statements: read_and_convert_image into destination types other than rgb8 / rgba8 (PNM: rgb8)
   --   -- the model contains no other colour conversion (`ConvOk`); dynamic-image readers; read_and_convert_view.
 -/
 
